@@ -72,7 +72,7 @@ class LocalCallModel(Model):
             args, kwargs = eng.eval_args(st, node)
             return self.lib.apply_contract(st, fc, None, args, kwargs,
                                            node.lineno)
-        if short in reg.classes:
+        if short in reg.classes and not reg.classes[short].get("_value"):
             return self.construct(st, short, node)
         return NotImplemented
 
@@ -80,6 +80,8 @@ class LocalCallModel(Model):
         eng = self.eng
         reg = eng.reg
         parts = d.split(".")
+        if d in ("queue.Queue",):
+            return self.construct(st, "Queue", node)
         # Class.staticmethod(...) / module.function(...)
         if len(parts) >= 2 and parts[-2] in reg.classes:
             fc = reg.find_method(parts[-2], parts[-1])
@@ -249,3 +251,190 @@ class CopyModel(Model):
 
 
 ALL = [RandomModel, LocalCallModel, CtxModel, PathModel, CopyModel]
+
+
+# ---------------------------------------------------------------------------
+class ValueClassModel(Model):
+    """Classes whose instances flow through opaque (U) channels: instances are
+    U values with class-membership predicates ISA_<cls> (hierarchy from the
+    sidecar `cls(..., base=..., _value=True)`, compared with the real class
+    statements by tools/check_classes.py)."""
+
+    def isa(self, cls):
+        return z3.Function("ISA_" + cls, U, BoolS)
+
+    def value_classes(self):
+        return [c for c, d in self.eng.reg.classes.items() if d.get("_value")]
+
+    def new_instance(self, st, cls):
+        t = st.fresh("obj_" + cls, U)
+        st.assume(t != NONE_U)
+        st.assume(TRUTHY(t))
+        for c in self.value_classes():
+            st.assume(self.isa(c)(t) ==
+                      z3.BoolVal(self.eng.reg.is_subclass(cls, c)))
+        return VU(t)
+
+    def call_global(self, st, name, node):
+        if name in self.eng.reg.classes and \
+                self.eng.reg.classes[name].get("_value"):
+            self.eng.eval_args(st, node)
+            return self.new_instance(st, name)
+        return NotImplemented
+
+    def isinstance_of(self, st, v, clsnode, line):
+        if isinstance(clsnode, ast.Name) and clsnode.id in self.value_classes():
+            if isinstance(v, VU):
+                return VBool(self.isa(clsnode.id)(v.t))
+            if isinstance(v, VNone):
+                return VBool(False)
+        return None
+
+    def axioms(self):
+        # subclass relation on arbitrary values
+        out = []
+        x = z3.Const("x!isa", U)
+        vcs = self.value_classes()
+        for c in vcs:
+            b = self.eng.reg.bases.get(c)
+            if b in vcs:
+                out.append(z3.ForAll([x], z3.Implies(self.isa(c)(x),
+                                                     self.isa(b)(x))))
+        return out
+
+
+class ItertoolsModel(Model):
+    """itertools.chain(it, itertools.cycle([x])): elements of `it`, then x
+    forever (A-STD)."""
+
+    def call_dotted(self, st, d, node):
+        eng = self.eng
+        if d == "itertools.cycle":
+            arg = eng.eval(st, node.args[0])
+            if isinstance(arg, VList) and z3.is_int_value(arg.n) and \
+                    arg.n.as_long() == 1:
+                v = VFunc(name="cycle1")
+                v.elem = wrap(arg.eshape, arg.arr[0])
+                return v
+            if isinstance(arg, VList):
+                n_ = z3.simplify(arg.n)
+                if z3.is_int_value(n_) and n_.as_long() == 1:
+                    v = VFunc(name="cycle1")
+                    v.elem = wrap(arg.eshape, z3.simplify(arg.arr[0]))
+                    return v
+            r = self.ext._first("cycle_of", st, arg, node)
+            if r is not None:
+                return r
+            raise self.E.Unsupported("itertools.cycle of this value")
+        if d == "itertools.chain" and len(node.args) == 2:
+            a = eng.eval(st, node.args[0])
+            b = eng.eval(st, node.args[1])
+            if isinstance(a, VIter) and isinstance(b, VFunc) and \
+                    b.name == "cycle1":
+                v = VFunc(name="chain_cycle")
+                v.src = a
+                v.tail = b.elem
+                return v
+            raise self.E.Unsupported("itertools.chain of these values")
+        return NotImplemented
+
+    def iter_of(self, st, v, line):
+        if isinstance(v, VFunc) and v.name == "chain_cycle":
+            return v
+        return None
+
+    def next_of(self, st, v, line):
+        if isinstance(v, VFunc) and v.name == "chain_cycle":
+            try:
+                return self.lib.next_flat(st, v.src, line)
+            except self.E.RaiseEx as ex:
+                if ex.cls == "StopIteration":
+                    return v.tail
+                raise
+        return None
+
+    def for_source(self, st, node, srcv, K, stop):
+        if isinstance(srcv, VFunc) and srcv.name == "chain_cycle":
+            node._iter_src = True
+            line = node.lineno
+
+            def pull():
+                return self.next_of(st, srcv, line)
+            return pull
+        return None
+
+
+class ComprehensionModel(Model):
+    """[Ctor(...) for _ in range(n)]: a list of n distinct fresh objects."""
+
+    def comprehension(self, st, node, kind):
+        eng = self.eng
+        if kind != "list" or len(node.generators) != 1:
+            return None
+        g = node.generators[0]
+        if g.ifs or g.is_async:
+            return None
+        elt = node.elt
+        it = g.iter
+        is_range = isinstance(it, ast.Call) and isinstance(it.func, ast.Name) \
+            and it.func.id == "range" and len(it.args) == 1
+        if is_range and isinstance(elt, ast.Call) and \
+                isinstance(elt.func, ast.Name) and \
+                elt.func.id in eng.reg.classes and \
+                not eng.reg.classes[elt.func.id].get("_value"):
+            cls = elt.func.id
+            n = eng.eval(st, it.args[0]).t
+            # evaluate the constructor arguments once (purity assumed for
+            # attribute reads / names)
+            for kw in elt.keywords:
+                eng.eval(st, kw.value)
+            for a in elt.args:
+                eng.eval(st, a)
+            base = st.next_ref
+            cnt = z3.If(n > 0, n, 0)
+            st.next_ref = base + cnt
+            arr = st.fresh("comp_arr", z3.ArraySort(IntS, IntS))
+            i = z3.Const("i!cp", IntS)
+            st.assume(z3.ForAll([i], z3.Implies(z3.And(0 <= i, i < cnt),
+                                                arr[i] == base + i)))
+            lst = VList(arr, z3.simplify(cnt), "ref:" + cls)
+            init = eng.reg.find_method(cls, "__init__")
+            if init is not None:
+                self.init_many(st, init, cls, base, cnt, elt)
+            return lst
+        return None
+
+
+def _init_many(self, st, init, cls, base, cnt, elt):
+    """Apply the __init__ contract to every object base <= q < base+cnt."""
+    eng = self.eng
+    q = z3.Const("q!cm", IntS)
+    recv = VRef(q, cls)
+    args, kwargs = eng.eval_args(st, elt)
+    env = self.lib.bind_call(st, init, recv, args, kwargs, elt.lineno)
+    keys = [m.split("@")[0] for m in init.modifies
+            if not m.startswith("ghost:")]
+    for k_ in keys:
+        if not any(h == k_ or h.startswith(k_ + "#") for h in st.heap):
+            eng._materialise(st, k_, eng._shape_of_key(k_))
+    pre = {k: v for k, v in st.heap.items()}
+    eng.havoc_heap(st, keys)
+    r = z3.Const("r!cm", IntS)
+    for k in list(st.heap):
+        if any(k == k_ or k.startswith(k_ + "#") for k_ in keys):
+            st.assume(z3.ForAll([r], z3.Implies(
+                z3.Or(r < base, r >= base + cnt), st.heap[k][r] == pre[k][r])))
+    saved = st.locals
+    st.locals = dict(env)
+    try:
+        conj = [eng.spec_bool(st, cl) for cl in init.ensures]
+    finally:
+        st.locals = saved
+    if conj:
+        st.assume(z3.ForAll([q], z3.Implies(z3.And(base <= q, q < base + cnt),
+                                            z3.And(conj))))
+
+
+ComprehensionModel.init_many = _init_many
+
+ALL = ALL + [ValueClassModel, ItertoolsModel, ComprehensionModel]
